@@ -153,7 +153,7 @@ pub fn run(ctx: &Ctx, model: &mut Model, rep: &mut Report) {
         let v: serde_json::Value = serde_json::from_str(&std::fs::read_to_string(path).unwrap()).unwrap();
         let lib = parse_lib(&v["library"]);
         rep.evaluations += 1;
-        if let Some((what, _)) = check_library(&lib, v["ext"].as_str().unwrap_or(""), false) {
+        if let Some((what, _)) = crate::act::with_via(crate::act::via_from(&v["via"]), || check_library(&lib, v["ext"].as_str().unwrap_or(""), false)) {
             rep.fail(json!({"kind": "links", "library": lib, "ext": v["ext"], "what": what}));
         }
         return;
@@ -205,10 +205,12 @@ pub fn run(ctx: &Ctx, model: &mut Model, rep: &mut Report) {
                 }
             }
         }
-        match check_library(&lib, ext, wild && any_open) {
+        // the LSP formatting route of the oracle loads the library in one of the five ways (C04: same state)
+        let via = crate::act::via_for(i as u64);
+        match crate::act::with_via(via, || check_library(&lib, ext, wild && any_open)) {
             None => {}
             Some((_, true)) => rep.count("attributed_to_D12"),
-            Some((what, false)) => rep.fail(json!({"kind": "links", "library": lib, "ext": ext, "what": what})),
+            Some((what, false)) => rep.fail(json!({"kind": "links", "library": lib, "ext": ext, "via": format!("{:?}", via), "what": what})),
         }
     }
 }
